@@ -145,6 +145,11 @@ func (fr *frame) get(key ssa.Value) value {
 	case *ssa.Const:
 		return constValue(key)
 	case *ssa.Global:
+		if GuardedGlobals != nil {
+			if mu, ok := GuardedGlobals[key.String()]; ok {
+				guardedAccess(fr, key, mu)
+			}
+		}
 		if needsInit[key] {
 			panic(engineLimit{"uninitialised global of a package whose init is skipped: " + key.String()})
 		}
